@@ -278,6 +278,15 @@ func CoerceBool(data any) Coerced {
 			return Coerced{OK: true, V: true}
 		}
 		return Coerced{}
+	case float64:
+		// a number of a JSON document: the same input as the int above (C14: front ends are views of the same record)
+		if x == 0 {
+			return Coerced{OK: true, V: false}
+		}
+		if x == 1 {
+			return Coerced{OK: true, V: true}
+		}
+		return Coerced{}
 	}
 	return Coerced{}
 }
@@ -290,7 +299,7 @@ func CoerceString(data any) Coerced {
 	return Coerced{OK: true, V: fmt.Sprintf("%v", data)}
 }
 
-// CoerceTime: time.Time as is; string in RFC3339 (or the schema's layout); int/int64 unix seconds.
+// CoerceTime: time.Time as is; string in RFC3339 (or the schema's layout); int/int64 (or a whole float64) unix seconds.
 func CoerceTime(data any, layout string) Coerced {
 	if layout == "" {
 		layout = time.RFC3339
@@ -308,6 +317,12 @@ func CoerceTime(data any, layout string) Coerced {
 		return Coerced{OK: true, V: time.Unix(int64(x), 0)}
 	case int64:
 		return Coerced{OK: true, V: time.Unix(x, 0)}
+	case float64:
+		// whole unix seconds as a JSON document carries them
+		if x == math.Trunc(x) && math.Abs(x) <= 1<<62 {
+			return Coerced{OK: true, V: time.Unix(int64(x), 0)}
+		}
+		return Coerced{}
 	}
 	return Coerced{}
 }
